@@ -203,7 +203,7 @@ class Explorer:
         os.makedirs(self.snapdir)
         self.nsnap = 0
         self.traces = []
-        self.seen = set()
+        self.seen = {}
         self.attempts = 0
         self.call = make_call(scn, self.g, self.local)
         self.key = order_key(scn["order"])
@@ -253,11 +253,11 @@ class Explorer:
                 self.traces.append(prefix + evk)
                 continue
             state_key = json.dumps(evk[-1]["disk"], sort_keys=True)
-            if state_key in self.seen:
-                # the same abstract disk state was already explored further; still record this death
+            if self.seen.get(state_key, -1) >= depth - 1:
+                # the same abstract disk state was already explored at least as deeply; still record this death
                 self.traces.append(prefix + evk + self.clean_suffix())
                 continue
-            self.seen.add(state_key)
+            self.seen[state_key] = depth - 1
             s2 = self.snapshot()
             self.explore(prefix + evk, s2, depth - 1)
 
